@@ -33,6 +33,9 @@ type c04Scen struct {
 	V       int     `json:"v"`
 	Ops     []c04Op `json:"ops"`
 	SlowUs  int     `json:"slow_us,omitempty"` // an OnMsgArrived hook takes this long for messages on slow/...
+	// Alias (v5): the publisher uses topic alias 1 for "t/x" as a client does: topic name + alias on the first PUBLISH of
+	// a connection (a retransmission after a resume included), the alias alone afterwards
+	Alias bool `json:"alias,omitempty"`
 }
 
 func genC04(backend string) func(t *rapid.T) c04Scen {
@@ -57,6 +60,7 @@ func genC04(backend string) func(t *rapid.T) c04Scen {
 			}
 		}
 		s.SlowUs = rapid.SampledFrom([]int{0, 300, 3000}).Draw(t, "slow")
+		s.Alias = s.V == 5 && rapid.IntRange(0, 2).Draw(t, "alias") == 0
 		return s
 	}
 }
@@ -114,6 +118,24 @@ func runC04(s c04Scen, c *ev.Case) *ev.Violation {
 	}
 	defer func() { p.Kill() }()
 	persistent := true
+	useAlias := s.Alias && s.V == 5 && ack.Props != nil && ack.Props.TopicAliasMax != nil && *ack.Props.TopicAliasMax >= 1
+	if useAlias {
+		c.Label("publisher_uses_topic_alias")
+	}
+	bound := map[*fixture.Client]bool{} // connections on which alias 1 has been bound to "t/x"
+	// tx builds a PUBLISH to "t/x" the way the client would put it on connection cl
+	tx := func(cl *fixture.Client, pk *mw.Packet) *mw.Packet {
+		pk.Type, pk.Topic = mw.PUBLISH, "t/x"
+		if useAlias {
+			pk.Props = &mw.Props{TopicAlias: u16p(1)}
+			if bound[cl] {
+				pk.Topic = ""
+				c.Label("publish_with_alias_only")
+			}
+			bound[cl] = true
+		}
+		return pk
+	}
 
 	awaiting := map[uint16]string{} // id -> uid of the message awaiting PUBREL
 	var forwarded []string
@@ -144,7 +166,7 @@ func runC04(s c04Scen, c *ev.Case) *ev.Violation {
 					nontrivial = true
 				}
 			}
-			if err := p.Send(&mw.Packet{Type: mw.PUBLISH, QoS: 2, Dup: dup, PacketID: op.ID, Topic: "t/x", Payload: []byte(payload)}); err != nil {
+			if err := p.Send(tx(p, &mw.Packet{QoS: 2, Dup: dup, PacketID: op.ID, Payload: []byte(payload)})); err != nil {
 				return ev.Violf("C04.send", "send failed: %v", err)
 			}
 			rec, err := p.WaitType(mw.PUBREC, fixture.DefaultWait)
@@ -176,7 +198,7 @@ func runC04(s c04Scen, c *ev.Case) *ev.Violation {
 			uid++
 			payload := fmt.Sprintf("m%d", uid)
 			forwarded = append(forwarded, payload)
-			if err := p.Send(&mw.Packet{Type: mw.PUBLISH, QoS: 1, PacketID: op.ID, Topic: "t/x", Payload: []byte(payload)}); err != nil {
+			if err := p.Send(tx(p, &mw.Packet{QoS: 1, PacketID: op.ID, Payload: []byte(payload)})); err != nil {
 				return ev.Violf("C04.send", "send failed: %v", err)
 			}
 			a, err := p.WaitType(mw.PUBACK, fixture.DefaultWait)
@@ -197,7 +219,7 @@ func runC04(s c04Scen, c *ev.Case) *ev.Violation {
 			for k := 0; k < op.K; k++ {
 				_ = p.Send(&mw.Packet{Type: mw.PUBLISH, Topic: "slow/x", Payload: []byte(fmt.Sprintf("filler-%d-%d", i, k))})
 			}
-			_ = p.Send(&mw.Packet{Type: mw.PUBLISH, QoS: 2, PacketID: op.ID, Topic: "t/x", Payload: []byte(payload)})
+			_ = p.Send(tx(p, &mw.Packet{QoS: 2, PacketID: op.ID, Payload: []byte(payload)}))
 			old := p
 			np, ack, err := connectP(false)
 			if err != nil || ack == nil || ack.ReasonCode != 0 {
@@ -208,7 +230,7 @@ func runC04(s c04Scen, c *ev.Case) *ev.Violation {
 			if !ack.SessionPresent {
 				return ev.Violf("C04.session-present", "take-over of a live persistent session with clean=0: Session Present = 0").With("version", s.V)
 			}
-			if err := p.Send(&mw.Packet{Type: mw.PUBLISH, QoS: 2, Dup: true, PacketID: op.ID, Topic: "t/x", Payload: []byte(payload)}); err != nil {
+			if err := p.Send(tx(p, &mw.Packet{QoS: 2, Dup: true, PacketID: op.ID, Payload: []byte(payload)})); err != nil {
 				return ev.Violf("C04.send", "send failed: %v", err)
 			}
 			rec, err := p.WaitType(mw.PUBREC, fixture.DefaultWait)
@@ -271,6 +293,9 @@ func runC04(s c04Scen, c *ev.Case) *ev.Violation {
 	for _, r := range sub.Take(func(p *mw.Packet) bool { return p.Type == mw.PUBLISH }) {
 		if !isSentinel(r.P) && !strings.HasPrefix(string(r.P.Payload), "filler-") {
 			got = append(got, string(r.P.Payload))
+			if r.P.Topic != "t/x" {
+				return ev.Violf("C04.topic", "message %s was published to \"t/x\" and forwarded under topic %q", r.P.Payload, r.P.Topic)
+			}
 		}
 	}
 	sort.Strings(got)
